@@ -2,6 +2,9 @@
    input : VL [VB name; args; request; oracle]
      args    : VL [VL [VZ kind; VB literal] ...]        kind 1 = STRING, 2 = BOOL ("true"/"false")
      request : see CondPrim.dec_request;  oracle : see CondPrim.dec_ext (results of the external library calls)
+   or    : VL [VZ 9; VB name; args; request; oracle; VZ shape]   the same call evaluated on an INCOMPLETE request object:
+           shape 1 = session-only request (HttpRequest == nil; what mod_key_log / TLS-phase callbacks build),
+           shape 2 = request without Session.  Only the session part of `request` is used.
    output: VZ 0/1 = condition.Build(name(args)).Match(request); VErr 1 = Build returned an error *)
 From Coq Require Import List ZArith Bool.
 From Bfe Require Import lib.Val lib.Bytes model.CondParse model.CondPrim.
@@ -25,10 +28,38 @@ Definition model_C18 (x : ext) (name : bytes) (args : list arg) (r : request) : 
   | None => VErr 1
   end.
 
+(* incomplete request objects: PrimitiveCond.Match answers false without fetching; DefaultTrueCond matches everything;
+   ClientAuthMatcher / TrustedCIpMatcher / SecureProtoMatcher only look at the session; the remaining combinations
+   dereference a nil pointer in the Go code and are not generated (VErr 2) *)
+Definition decode_shape (i : val) : option (bytes * list arg * request * ext * Z) :=
+  match i with
+  | VL [VZ 9; VB name; args; rq; orc; VZ shape] =>
+    match dec_args args, dec_request rq, dec_ext orc with
+    | Some a, Some r, Some x => if (shape =? 1) || (shape =? 2) then Some (name, a, r, x, shape) else None
+    | _, _, _ => None
+    end
+  | _ => None
+  end.
+Definition shape_verdict (x : ext) (name : bytes) (args : list arg) (r : request) (shape : Z) : val :=
+  match build_call x name args with
+  | None => VErr 1
+  | Some (CPrim _ _ _) => VZ 0
+  | Some (CDirect ty) =>
+    if bytes_eqb ty n_DefaultTrueCond then VZ 1
+    else if bytes_eqb ty n_ClientAuthMatcher then (if shape =? 1 then vbool (direct_match ty r) else VZ 0)
+    else if (bytes_eqb ty n_TrustedCIpMatcher || bytes_eqb ty n_SecureProtoMatcher) && (shape =? 1)
+         then vbool (direct_match ty r)
+    else VErr 2
+  end.
+
 Definition run_C18 (i : val) : val :=
   match decode_C18 i with
   | Some (name, a, r, x) => model_C18 x name a r
-  | None => VErr 0
+  | None =>
+    match decode_shape i with
+    | Some (name, a, r, x, sh) => shape_verdict x name a r sh
+    | None => VErr 0
+    end
   end.
 Definition agree_C18 (i o : val) : bool := val_eqb (run_C18 i) o.
 
@@ -80,7 +111,11 @@ Definition prop_C18 (i o : val) : bool :=
               end
     | _ => val_eqb o (VErr 1)
     end
-  | None => true
+  | None =>
+    match decode_shape i with
+    | Some (name, a, r, x, sh) => val_eqb o (shape_verdict x name a r sh)   (* incomplete request: see shape_verdict *)
+    | None => true
+    end
   end.
 Definition kf_C18 (i : val) : Z :=
   match decode_C18 i with
